@@ -354,6 +354,10 @@ type c17Hist struct {
 	datas   []*c17Data
 	owners  []string
 	provers []sdk.AccAddress // candidates that submit proofs (registered providers and strangers)
+	// directed steps: the next proof goes to this file, from this account, with this kind of payload
+	forceFile   *c17File
+	forceProver sdk.AccAddress
+	forceKind   string
 	attest  []sdk.AccAddress
 	accts   []sdk.AccAddress // every account whose balance is watched
 	trace   []interface{}
@@ -481,6 +485,9 @@ func c17Run(r *RunCtx, prop string) error {
 		if err := c01RestartTwin(r); err != nil {
 			return err
 		}
+		if err := c01UpgradeTwin(r); err != nil {
+			return err
+		}
 	}
 	nh := r.Scale(10, 120)
 	for k := 0; k < nh; k++ {
@@ -593,6 +600,23 @@ func (h *c17Hist) run() error {
 	}
 	defer h.e.Close()
 	p := h.p
+	// directed: a file with two seats; four different accounts answer the newcomer's challenge honestly in one block.
+	// Two are seated; the others are told the file is full, and the list never holds more keys than seats
+	if h.hid%2 == 0 && len(h.datas) > 0 {
+		if err := h.postWith(h.datas[0], h.owners[0], h.datas[0].Size, 2, 0, "{}"); err != nil {
+			return err
+		}
+		if len(h.files) > 0 {
+			h.forceFile, h.forceKind = h.files[len(h.files)-1], "honest"
+			for i := 0; i < 4 && i < len(h.provers); i++ {
+				h.forceProver = h.provers[i]
+				if err := h.opProof(); err != nil {
+					return err
+				}
+			}
+			h.forceFile, h.forceProver, h.forceKind = nil, nil, ""
+		}
+	}
 	steps := 28 + p.Intn(h.r.Scale(16, 40))
 	// weights per op kind; C01 leans on proofs and reward blocks
 	type wk struct {
@@ -827,19 +851,25 @@ var c17PayloadKinds = []string{"honest", "honest", "honest", "honest", "honest",
 func (h *c17Hist) opProof() error {
 	p, e := h.p, h.e
 	f := h.pickFile()
+	if h.forceFile != nil {
+		f = h.forceFile
+	}
 	if f == nil {
 		return h.opPost()
 	}
 	k := e.App.StorageKeeper
 	proverAcc := PickOne(p, h.provers)
 	up := p.Chance(1, 10)
+	if h.forceProver != nil {
+		proverAcc, up = h.forceProver, false
+	}
 	creator := Spell(proverAcc, up)
 	stored, found := k.GetFile(e.Ctx, f.Merkle, f.Owner, f.Start)
 	if !found {
 		return fmt.Errorf("harness file list out of sync")
 	}
 	// prefer a prover already listed half of the time
-	if len(stored.Proofs) > 0 && p.Chance(1, 3) {
+	if len(stored.Proofs) > 0 && p.Chance(1, 3) && h.forceProver == nil {
 		pr, _, _, _, err := c17ParsePKey(PickOne(p, stored.Proofs))
 		if err != nil {
 			return err
@@ -853,6 +883,9 @@ func (h *c17Hist) opProof() error {
 		challenge = rec.ChunkToProve
 	}
 	kind := PickOne(p, c17PayloadKinds)
+	if h.forceKind != "" {
+		kind = h.forceKind
+	}
 	n := int64(len(f.Chunks))
 	msg := &storagetypes.MsgPostProof{Creator: creator, Merkle: f.Merkle, Owner: f.Owner, Start: f.Start, ToProve: challenge}
 	data := &c17Data{Chunks: f.Chunks, Leaves: f.Leaves, Tree: f.Tree}
